@@ -169,7 +169,7 @@ def run(ctx):
         elif c0[0] != 'ok' or c1[0] != 'ok' or c0[1] != want_c or c1[1] != want_c:
             ctx.report('property', 'the face centres of the dataset / of the subset are not the stored face positions', mcase)
     narrow_tables(ctx)
-    fl, tmp = cc.flows(ctx, 40 if quick else 140, quick)
+    fl, tmp = cc.flows(ctx, 55 if quick else 165, quick)
     exprs, plans = [], []
     fill_exprs, fill_plans = [], []
     try:
